@@ -39,7 +39,7 @@ def inputs_dir():
     # harness process leaks into the inputs; built in place because the descriptions embed absolute paths
     shutil.rmtree(d, ignore_errors=True)
     p = subprocess.run([sys.executable, "-c", "import sys; from svmc import ops18; ops18.prepare(sys.argv[1])", d], env=_env(True, "0"),
-                       capture_output=True, text=True)
+                       capture_output=True, text=True, timeout=600)
     if p.returncode != 0:
         raise RuntimeError(f"harness: preparing C18 inputs failed: {p.stderr[-800:]}")
     open(marker, "w").close()
